@@ -2,6 +2,8 @@
 
 package dyncrc16
 
+import "io"
+
 // C14 — the checksum is CRC-16/ARC and does not depend on how data is fed.
 
 // vRefStep is the textbook bit-serial reflected CRC-16 step, polynomial
@@ -70,6 +72,14 @@ func H14b() {
 	vAssert(h.Sum16() == vFold(0, data), "C14.hash.fold")
 	h.Reset()
 	vAssert(h.Sum16() == 0, "C14.reset")
+	// feeding the same bytes as a string (io.WriteString uses a WriteString
+	// method when the hasher has one) is one more way to split the data
+	if L <= 3 {
+		ws := New()
+		io.WriteString(ws, string(data[:k]))
+		ws.Write(data[k:])
+		vAssert(ws.Sum16() == vFold(0, data), "C14.writestring")
+	}
 	vReached("end")
 }
 
